@@ -1683,3 +1683,105 @@ def c19_r(ctx):
             yield ok("C19-R", key, at(root), {"functions_searched": seen_fns, "decisions_reading_self.state": 0})
     if n == 0:
         raise Anchor("C19-R", "process_pdu of the transactions")
+
+
+# ================================================================ C19-D: resume re-arms what suspend paused
+RESUME_REARMS = {
+    # (transaction, phase variants of the arm) -> timers that must be re-armed on every path of that arm
+    ("SendTransaction", ("SendEof", "Cancelled")): ("ack", "inactivity"),
+    ("RecvTransaction", ("Finished", "Cancelled")): ("ack",),
+}
+
+
+@rule("C19", "C19-D", 5, "resume re-arms, on every path of the phase, each timer the phase relies on: the positive-ACK and inactivity timers of a sender waiting after its EOF, the ACK timer of a receiver waiting for ACK(Finished), the receiver's inactivity timer always; the receiver's NAK timer and NAK list in the receive-data phase whenever NAKs apply (acknowledged mode and EOF received or immediate procedure) - skipped only when they do not")
+def c19_d(ctx):
+    from core import dominators
+
+    n = 0
+    for adt in (RECV, SEND):
+        nm = adt.split("::")[-1]
+        f = ctx.one("C19-D", nm + "::resume")
+        eb = ExprBuilder(ctx.prog, f)
+
+        def rearm_blocks(which):
+            out = set()
+            for b, t in f.all_calls():
+                d, r, _ = ctx.prog.callee_of(t)
+                cal = (r or d or "").split("::")[-1]
+                if cal in ("restart_" + which, "reset_" + which):
+                    out.add(b)
+            return out
+
+        # the dispatch on the phase
+        phase_field = "self.recv_state" if adt == RECV else "self.send_state"
+        sw = None
+        for b in f.live_blocks():
+            t = f.blocks[b]["term"]
+            if t["k"] == "switch":
+                e = eb.operand(t["discr"])
+                if e[0] == "discr" and expr_str(e[1]) == phase_field:
+                    sw = (b, t, ctx.prog.variant_names(e[1][2]) or {})
+        if sw is None:
+            yield undecided("C19-D", "%s::resume:dispatch" % nm, at(f), "no dispatch on %s found in resume" % phase_field)
+            continue
+        sb, st, names = sw
+        tgt = {names.get(v, str(v)): tb for v, tb in st["targets"]}
+        for (tn, phases), timers in RESUME_REARMS.items():
+            if tn != nm:
+                continue
+            for ph in phases:
+                start = tgt.get(ph, st["otherwise"])
+                for which in timers:
+                    n += 1
+                    key = "%s::resume:%s:%s" % (nm, ph, which)
+                    rb = rearm_blocks(which)
+                    r = f.reachable(start, avoid=rb) if start not in rb else set()
+                    if any(f.blocks[x]["term"]["k"] == "return" for x in r):
+                        yield bad("C19-D", key, at(f, st["span"]["line"]), "in the %s phase a path through resume does not re-arm the %s timer (it stays paused): what that timer drives - the retransmission it guards, or the limit that ends the transaction - never happens after the resume" % (ph, which))
+                    else:
+                        yield ok("C19-D", key, at(f, st["span"]["line"]), "restart/reset_%s on every path" % which)
+        if adt == RECV:
+            # inactivity: always
+            n += 1
+            rb = rearm_blocks("inactivity")
+            r = f.reachable(0, avoid=rb) if 0 not in rb else set()
+            if any(f.blocks[x]["term"]["k"] == "return" for x in r):
+                yield bad("C19-D", "RecvTransaction::resume:inactivity", at(f), "a path through resume leaves the inactivity timer paused")
+            else:
+                yield ok("C19-D", "RecvTransaction::resume:inactivity", at(f), "re-armed on every path")
+            # receive-data phase: NAK timer + list, skipped only when NAKs do not apply
+            n += 1
+            key = "RecvTransaction::resume:ReceiveData:nak"
+            start = tgt.get("ReceiveData", st["otherwise"])
+            rb = rearm_blocks("nak")
+            region = f.reachable(start)
+            can_reach = {x for x in region if rb & f.reachable(x)}
+            if not rb or start not in can_reach:
+                yield bad("C19-D", key, at(f, st["span"]["line"]), "resume never re-arms the NAK timer in the receive-data phase")
+            else:
+                fl = Flow(ctx.prog, ctx.mods, f, lambda k: (k[0] == "val" and (k[1].endswith("transmission_mode") or k[1].endswith("nak_procedure"))) or (k[0] == "call" and k[1].split("::")[-1] == "eof_received"))
+                bypass = set()
+                for x in can_reach:
+                    if x in rb:
+                        continue
+                    for y, _l in f.succs(x):
+                        if y in region and y not in can_reach:
+                            bypass.add(y)
+                problems = []
+                for y in sorted(bypass):
+                    for w in fl.at_term(y):
+                        d = dict(w)
+                        mode = [v for k, v in d.items() if k[0] == "val" and k[1].endswith("transmission_mode")]
+                        proc = [v for k, v in d.items() if k[0] == "val" and k[1].endswith("nak_procedure")]
+                        eofr = [v for k, v in d.items() if k[0] == "call"]
+                        not_ack = any((pos and "Acknowledged" not in vs) or (not pos and "Acknowledged" in vs) for pos, vs in mode)
+                        deferred = any((pos and "Immediate" not in vs) or (not pos and "Immediate" in vs) for pos, vs in proc)
+                        no_eof = any(pos and set(vs) == {0} for pos, vs in eofr)
+                        if not (not_ack or (deferred and no_eof)):
+                            problems.append(world_str(w)[:160])
+                if problems:
+                    yield bad("C19-D", key, at(f, st["span"]["line"]), "in the receive-data phase resume skips re-arming the NAK timer and recomputing the NAK list on a path where NAKs apply (state %s): a receiver resumed with data still missing never asks for it again" % problems[0])
+                else:
+                    yield ok("C19-D", key, at(f, st["span"]["line"]), "skipped only when not acknowledged, or deferred procedure before EOF")
+    if n == 0:
+        raise Anchor("C19-D", "resume of the transactions")
